@@ -270,7 +270,10 @@ pub fn judge_conn(sc: &Scenario, obs: &Obs, res: &RunResult, opts: &JudgeOpts) -
         }
     }
     // ---------------- what the client got back
-    if opts.responses && !vanished {
+    // a response whose body source failed cannot be delimited by the client: what follows
+    // it on the connection is judged by the check that generates such programs (C06)
+    let undelimitable = sc.app.plans.iter().any(|p| matches!(p.finish, Finish::RespondFailingReader { .. }));
+    if opts.responses && !vanished && !undelimitable {
         let co = &obs.conns[0];
         // expected final responses in order
         #[derive(Debug)]
@@ -331,6 +334,7 @@ pub fn judge_conn(sc: &Scenario, obs: &Obs, res: &RunResult, opts: &JudgeOpts) -
                             interim_100: false,
                             upgrade_rest: Some(di),
                         },
+                        Finish::RespondFailingReader { .. } => Want { status: 0, id: None, body: None, head, interim_100: false, upgrade_rest: None },
                         Finish::Drop | Finish::Panic => Want {
                             status: 500,
                             id: None,
